@@ -284,10 +284,10 @@ func cbOracle(c CbCase, o *h.Obs) *h.Fail {
 
 	// plan the results of invocation i: out, expected values
 	type rplan struct {
-		out   outcome
-		why   string
-		vals  []reflect.Value
-		loose []bool
+		out    outcome
+		why    string
+		vals   []reflect.Value
+		loose  []bool
 		nilPtr bool
 	}
 	planRet := func(inv int) rplan {
